@@ -35,10 +35,17 @@ meta = {"id": sid, "property": prop, "source": "fresh sub-agent, given only "
         "the property text and a scratch worktree", "confirmed": {}}
 sh("git checkout -- tlslite", cwd=wt)
 rc, out, dt = sh("git apply --check %s" % patch, cwd=wt)
+APPLY = "git apply"
+if rc != 0:
+    # the tree moved on (later fix: commits nearby): retry with less context
+    rc, out, dt = sh("git apply -C1 --recount --check %s" % patch, cwd=wt)
+    if rc == 0:
+        APPLY = "git apply -C1 --recount"
+        meta["confirmed"]["applied_with_reduced_context"] = True
 meta["confirmed"]["applies"] = rc == 0
 rc, out, dt = sh("timeout 600 %s %s" % (PY, demo), cwd=wt)
 meta["confirmed"]["demo_clean_exit"] = rc
-sh("git apply %s" % patch, cwd=wt)
+sh("%s %s" % (APPLY, patch), cwd=wt)
 try:
     rc, out, dt = sh("timeout 600 %s %s" % (PY, demo), cwd=wt)
     meta["confirmed"]["demo_patched_exit"] = rc
@@ -62,7 +69,7 @@ try:
     meta["detection_quick"] = det
 finally:
     sh("git checkout -- tlslite", cwd=wt)
-dst = os.path.join("/verif/seeded", sid)
+dst = os.path.join(os.environ.get("SEED_OUT", "/verif/seeded"), sid)
 os.makedirs(dst, exist_ok=True)
 shutil.copy(patch, os.path.join(dst, "patch.diff"))
 shutil.copy(demo, os.path.join(dst, "demo.py"))
